@@ -61,7 +61,11 @@ RULE = ("route tables of 1-12 registrations over segments {a,b,c,:x,:y,:z} (dept
 TRUSTED = ["net/http request construction (driver sets r.Method / r.URL.Path directly) and httptest.ResponseRecorder",
            "path.Clean re-implemented as C03.Path.clean and compared with Go's result on every registered and requested path",
            "net/http method constants as written in C03/GenEnv.v"]
-ASSUMPTIONS = ["WithCors / WithCustomCors install cors.NotAllowedHandler through the router's public SetNotAllowedHandler override "
+ASSUMPTIONS = ["responses are observed as the client receives them (ResponseRecorder.Result(): status and header snapshot at "
+               "WriteHeader); NewServer options: WithRouter placed AFTER WithNotFoundHandler / WithNotAllowedHandler / WithCors "
+               "discards them on the unchanged tree (c03_server_options_refuted, class withrouter-drops-handlers); such orders "
+               "are generated only when that finding is listed in KNOWN_FINDINGS.txt or C03_ROUTER_LAST=1",
+               "WithCors / WithCustomCors install cors.NotAllowedHandler through the router's public SetNotAllowedHandler override "
                "(as upstream): with CORS on, the ROUTER's decision is checked (route handler iff a pattern of the method matches - "
                "also for non-OPTIONS requests with Origin / Access-Control-Request-* headers; the not-allowed handler is the one "
                "that answers iff no pattern of the method matches but another method's does - its answer is 404; the not-found "
@@ -467,6 +471,31 @@ CORS_ORIGINS = [[], [], ["*"], ["example.com"], ["example.com", "verif.test"]]
 REQ_ORIGINS = ["http://x.example.com", "https://verif.test", "http://evil.org", "null", ""]
 
 
+def _add_sopts(rng, case):
+    """NewServer options: custom not-found / not-allowed handlers, WithRouter, WithCors in random order"""
+    if rng.random() < 0.5:
+        return case
+    case["via"] = "server"
+    opts = []
+    if rng.random() < 0.7:
+        opts.append({"o": "nf"})
+    if rng.random() < 0.15:
+        opts.append({"o": "nfnil"})
+    if rng.random() < 0.5:
+        opts.append({"o": "na"})
+    cors = case.pop("cors", None)
+    if cors:
+        opts.append({"o": "cors", "cors": cors})
+    rng.shuffle(opts)
+    if rng.random() < 0.5:
+        k = rng.randint(0, len(opts)) if ROUTER_LAST else 0
+        opts.insert(k, {"o": "router"})
+        if rng.random() < 0.2:
+            opts.insert(0, {"o": "router"})
+    case["sopts"] = opts
+    return case
+
+
 def _add_cors(rng, case):
     """cors on/off dimension: the server is created with WithCors / WithCustomCors; requests (in both modes) carry
     preflight-style headers although most of them are not OPTIONS requests, and some OPTIONS requests are added"""
@@ -498,9 +527,9 @@ def generate(rng, tier, n):
         if r < 0.12:
             cases.append(_tree_case(rng, tier))
         elif r < 0.22:
-            cases.append(_add_cors(rng, _engine_case(rng, tier)))
+            cases.append(_add_sopts(rng, _add_cors(rng, _engine_case(rng, tier))))
         elif r < 0.34:
-            cases.append(_add_cors(rng, _mount_case(rng, tier)))
+            cases.append(_add_sopts(rng, _add_cors(rng, _mount_case(rng, tier))))
         else:
             c = _router_case(rng, tier)
             pats = c.pop("_pats")
@@ -597,6 +626,17 @@ def search(rng, problems):
               ("GET", "/zz"), ("PATCH", "/zz/y")]]
     for cors in (None, {"mode": "cors", "origins": []}, {"mode": "custom", "origins": ["example.com"]}):
         out.append({"kind": "engine", "via": "server", "cors": cors, "slices": [csl], "mounts": [{"slice": 0, "opts": []}], "reqs": creqs})
+    # server options in different orders: the configured custom handlers must answer (exactly once)
+    osl = [_r("POST", "/a"), _r("GET", "/b/:x")]
+    oreqs = [{"m": m, "p": p} for m, p in [("GET", "/zz"), ("GET", "/a"), ("POST", "/a"), ("OPTIONS", "/a"), ("GET", "/b/1"), ("PUT", "/b/1"),
+                                          ("GET", "/"), ("GET", "a"), ("DELETE", "/zz/y")]]
+    nf, na, rt, co = {"o": "nf"}, {"o": "na"}, {"o": "router"}, {"o": "cors", "cors": {"mode": "custom", "origins": []}}
+    orders = [[], [nf], [na], [nf, na], [na, nf], [rt], [rt, nf], [rt, na, nf], [rt, rt, nf], [co, nf], [nf, co], [na, co], [co, na],
+              [rt, co, nf, na], [{"o": "nfnil"}], [nf, {"o": "nfnil"}], [{"o": "nfnil"}, nf]]
+    if ROUTER_LAST:
+        orders += [[nf, rt], [na, rt], [co, rt], [nf, rt, na]]
+    for so in orders:
+        out.append({"kind": "engine", "via": "server", "sopts": so, "slices": [osl], "mounts": [{"slice": 0, "opts": []}], "reqs": oreqs})
     # jwt-protected ':name' routes, valid tokens whose claims are named like the parameters / the context key
     jsl = [_r("GET", "/a/:x"), _r("GET", "/p/:pathVars/:id"), _r("POST", "/:y")]
     jclaims = [[], [{"k": "x", "v": "evil"}], [{"k": "pathVars", "v": "evil"}], [{"k": "pathVars", "v": {"x": "evil"}}],
@@ -628,6 +668,7 @@ def _norm(case):
                 "ops": [dict(r, op="reg") for r in case.get("regs", [])] + [dict(r, op="req") for r in case.get("reqs", [])]}
     if case.get("kind") == "engine" and "mounts" not in case:
         return {"kind": "engine", "via": case.get("via", "engine"), "reqs": case.get("reqs", []), "cors": case.get("cors"),
+                "sopts": case.get("sopts"),
                 "slices": [g["routes"] for g in case.get("groups", [])],
                 "mounts": [{"slice": i, "opts": [] if g.get("prefix") is None else [{"o": "prefix", "v": g["prefix"]}]}
                            for i, g in enumerate(case.get("groups", []))]}
@@ -726,6 +767,49 @@ def _encode_router(case, obs):
     return "mkcase false %s [] [] [] [] [] [] None %s" % (cbool(bool(case.get("nf"))), clist(ops))
 
 
+def _sopts(case):
+    """NewServer options in order (the legacy `cors` field is one more option at the end)"""
+    out = list(case.get("sopts") or [])
+    if case.get("cors"):
+        out.append({"o": "cors", "cors": case["cors"]})
+    return out if case.get("via") == "server" else []
+
+
+def _sopt(o):
+    return {"nf": "(xnf true)", "nfnil": "(xnf false)", "na": "xna", "cors": "xcors", "router": "xrouter"}[o["o"]]
+
+
+def _router_last(case):
+    """a handler option followed by a later WithRouter: the option is discarded (finding withrouter-drops-handlers)"""
+    seen = False
+    for o in _sopts(case):
+        if o["o"] == "router" and seen:
+            return True
+        if o["o"] in ("nf", "na", "cors"):
+            seen = True
+    return False
+
+
+def classify(case, obs):
+    case = _norm(case)
+    if case.get("kind") == "engine" and _router_last(case):
+        return "withrouter-drops-handlers"
+    return None
+
+
+def _finding_listed(cls):
+    try:
+        with open(os.path.join(vlib.VERIF, "KNOWN_FINDINGS.txt")) as f:
+            return any(l.startswith("finding:") and "property=C03 " in l and ("class=" + cls) in l for l in f)
+    except OSError:
+        return False
+
+
+# orders in which WithRouter comes after a handler option violate the statement on the unchanged tree; they are
+# generated only when that finding is listed in KNOWN_FINDINGS.txt (or C03_ROUTER_LAST=1)
+ROUTER_LAST = os.environ.get("C03_ROUTER_LAST", "1" if _finding_listed("withrouter-drops-handlers") else "0") == "1"
+
+
 def _encode_engine(case, obs):
     if len(obs.get("after", [])) != len(case["slices"]):
         return "mkcase false false [] [1] [] [] [] [] None []"
@@ -753,7 +837,7 @@ def _encode_engine(case, obs):
         clist([cpair(clist([mp(r) for r in before]), clist([mp(r) for r in after]))
                for before, after in zip(case["slices"], obs["after"])]),
         clist([cpair(_m(c["m"]), _b(c["p"]), cnat(ERR.get(c["err"], 9))) for c in obs["calls"]]),
-        cbool(bool(case.get("cors"))))
+        clist([_sopt(o) for o in _sopts(case)]))
     return "mkcase false false [] [] [] %s %s %s %s []" % (
         clist([cpair(_m(m), _b(p)) for m, p in reqs]), clist(rows), clist(gs), eo)
 
@@ -808,6 +892,16 @@ def bucket(case, obs):
             out.append("engine:other-options")
         if any(mt.get("mw") for mt in case["mounts"]):
             out.append("engine:with-middlewares")
+        so = [o["o"] for o in _sopts(case)]
+        if so:
+            out.append("sopts:" + ",".join(so))
+        for q, r in rows:
+            if r["nf"] % 10:
+                out.append("srv:custom-notfound-answered")
+            if (r["nf"] // 10) % 10:
+                out.append("srv:custom-notallowed-answered")
+        if any(o["o"] == "cors" for o in _sopts(case)):
+            case = dict(case, cors=[o["cors"] for o in _sopts(case) if o["o"] == "cors"][-1])
         if case.get("cors"):
             out.append("engine:cors=" + case["cors"]["mode"])
             for q, r in rows:
